@@ -21,6 +21,7 @@ import common
 import c03_gen
 import c03_model as M
 import c03_progs as P
+import c03_parser as PP
 
 POOL = ["wrong-arg-types", "attribute-error", "name-error", "bad-return-type", "annotation-type-mismatch",
         "not-callable", "unsupported-operands", "missing-parameter", "wrong-arg-count", "wrong-keyword-args"]
@@ -602,12 +603,25 @@ def run(res):
               "line, stand-alone disable..enable pair, stand-alone disable / type: ignore to EOF.  For each variant "
               "EVERY (line 0..n+1, class in {E, classes named in directives, 4 fixed}, return-opcode flag) query is "
               "answered by the real Director and by the model.  Non-trivial = the edit changes at least one verdict; "
-              "distinct by (program text, edit).")
+              "distinct by (program text, edit).  Parser leg: every source text above (bounded number per program) plus "
+              "13 small programs reaching every visitor branch (async, try/try*, match, nested with, decorated classes, "
+              "function type comments, semicolons, signatures, lambdas, ...) with random comments sprinkled in: Python's "
+              "real ast is projected to the model's mini tree, the real tokenizer pass gives the raw comments, and ALL "
+              "outputs of the real visitor (groups in order, function ranges, returns, block returns, decorators, "
+              "defs_start, annotation ranges, matches, the grown defaultdict) are compared with the model's; the parser "
+              "theorems' statements are also evaluated directly on the real visitor's output.")
   res.assumptions = [
-      "parser (pytype/directors/parser.py: tokenizer + AST visitor grouping comments) is input to the model, not "
-      "modelled; its properties used by the theorems (comment recorded in a statement range containing its line, "
-      "stand-alone comments in line order, an added comment adds events and changes nothing else) are monitored "
-      "on every variant",
+      "parser.py's tokenizer pass (_process_comments: tokenize + _DIRECTIVE_RE) is not modelled: its output is the "
+      "parser model's input (monitored: lines strictly increasing = raw_ok); the ast-level visitor IS modelled "
+      "(coq/Directors/Parser.v) and compared with the real one on every source text",
+      "projection of Python's ast to the mini tree (harness/props/c03_parser.py: node kinds, spans, the child order of "
+      "pytype/ast/visitor.py re-stated independently) is trusted; a wrong projection shows up as a disagreement",
+      "of the parser-output hypotheses of the Director theorems, base-group containment, range containment of every "
+      "event and the shape of call-range events are now PROVED of the parser model; 'an added trailing comment only "
+      "adds events' (inserted) is proved relative to the source with that comment blanked to a plain '#' (erasure "
+      "commutes with the visitor); that a plain comment token is event-neutral, that the tokenizer's map of the "
+      "blanked source is the erased map, inserted itself, and 'stand-alone comments are seen in line order' "
+      "(open_mono) are monitored on the real parser for every edit",
       "comments do not change the bytecode / opcode line numbers (CPython) — covered only by the end-to-end run",
       "comment text is tokenised by str.split on the harness side (command=v1,v2 options); pragma/features "
       "validity read from the live directors._PRAGMAS/_ALLOWED_FEATURES",
@@ -627,7 +641,7 @@ def run(res):
     res.obligation("translator:error-classes", False, str(e))
     return "proof"
   t_phase = time.time()
-  common.coq_obligations(res, "C03", extra_targets=["Directors/Cases.vo"])
+  common.coq_obligations(res, "C03", extra_targets=["Directors/Cases.vo", "Directors/ParserCases.vo"])
   res.extra["coq_build_wall_s"] = round(time.time() - t_phase, 1)
   common.bootstrap_pytype()
   from pytype.directors import directors
@@ -701,8 +715,44 @@ def run(res):
     if res.violation(name, what, replay):
       reported_fps.add(fp)
 
+  pcases = []       # parser-model cases: (raw, tree, expected sections, nodes)
+  pmeta = []
+  p_seen = set()
+  p_texts = 0
+  p_nodes = 0
+  p_shapes = collections.Counter()
+  p_per_prog = 8 if thorough else 4
+
+  def parser_leg(tag, text, n_of_prog):
+    """Real parser on `text`: direct oracles (always) + a model-vs-real case (a bounded number per program)."""
+    nonlocal p_texts, p_nodes
+    if text in p_seen:
+      return n_of_prog
+    p_seen.add(text)
+    p_texts += 1
+    rp = PP.real_parse_full(text)
+    lines_ = [l for l, _ in rp.raw]
+    if lines_ != sorted(set(lines_)) or (lines_ and lines_[0] < 1) or any(c.line != l for l, cs_ in rp.raw for c in cs_):
+      n_mon_bad["raw-comments-not-in-line-order (raw_ok)"] += 1
+    p_shapes["statement-groups-line-disjoint" if PP.base_groups_disjoint(rp) else "statement-groups-share-a-line"] += 1
+    for fp, detail in PP.oracles(rp):
+      dev_hist["parser:" + fp] += 1
+      report(fp, detail, {"src": text, "level": "parser"})
+    if n_of_prog < p_per_prog:
+      parts = PP.case_parts(rp, M.Ids(table), PP.DataIds())
+      pcases.append(parts)
+      pmeta.append({"tag": tag, "src": text})
+      p_nodes += parts[3]
+      for ic, s_, e_, cs_ in rp.groups:
+        if cs_:
+          p_shapes[("call" if ic else "stmt") + ("-multiline" if e_ > s_ else "-1line")] += 1
+      res.count(("parser", text) if any(e_ > s_ and cs_ for _, s_, e_, cs_ in rp.groups) else None)
+      return n_of_prog + 1
+    return n_of_prog
+
   for tag, src, disable, edits, do_e2e in work:
     ids = M.Ids(table)
+    n_pcase = 0
     seen_variants = set()
     variants = [("base", None, src, src, {"L": 0})]
     for ed in edits:
@@ -719,6 +769,7 @@ def run(res):
           continue
         groups, fr, rl, raw = M.real_parse(text)
         parsed[text] = (groups, fr, rl)
+        n_pcase = parser_leg(tag, text, n_pcase)
         for b in parser_monitors(groups, raw):
           n_mon_bad[b] += 1
       # model vs real on the edited text (the reference text is the base or is covered as its own variant)
@@ -761,6 +812,29 @@ def run(res):
           hyp["no-base-range-event-added"] += 1
         else:
           hyp["inserted:ok"] += 1
+        # parser_trailing_comment_inserted_partial is relative to the source with the comment blanked to a plain
+        # "#"; what is left of `inserted` is monitored here: (a) the tokenizer's map of the blanked source is the
+        # erased map of the edited source, (b) the plain comment token is event-neutral w.r.t. the reference source
+        blank = P.append_to_line(src, L, "#")
+        if parses(blank):
+          rpN, rpB = PP.real_parse_full(new), PP.real_parse_full(blank)
+          tup = lambda x: (x.line, x.tool, x.data, bool(x.open_ended))
+          n_same = sum(1 for _, cs_ in rpN.raw for x in cs_ if tup(x) == c)
+          if n_same != 1:
+            hyp["blank:identical-comment-already-on-the-line"] += 1
+          else:
+            erased = [(l_, [tup(x) for x in cs_ if tup(x) != c]) for l_, cs_ in rpN.raw]
+            if erased == [(l_, [tup(x) for x in cs_]) for l_, cs_ in rpB.raw]:
+              hyp["blank:tokenizer-map-is-erased-map"] += 1
+            else:
+              hyp["blank:tokenizer-map-differs"] += 1
+          gB = [(ic, s_, e_, tup(x)) for ic, s_, e_, cs_ in rpB.groups for x in cs_]
+          if gB == gD:
+            hyp["blank:plain-comment-event-neutral"] += 1
+          else:
+            hyp["blank:plain-comment-NOT-event-neutral"] += 1
+            if len(hyp_debug) < 5:
+              hyp_debug.append({"src": blank, "edit": ed, "what": "plain comment changes the events"})
       else:
         cs = [(L, "pytype", f"disable={ed['name']}", True)] if kind != "signore" else [(L, "type", "ignore", True)]
         if kind == "pair":
@@ -816,6 +890,9 @@ def run(res):
       elif do_e2e and tag.startswith("corpus:") and not skip_oracle:
         e2e_jobs.append((tag, src, disable, ed))
 
+  # parser leg only: small programs reaching every branch of the visitor, with random comments sprinkled in
+  for sname, stext in PP.shape_variants(r, 12 if thorough else 2):
+    parser_leg("shape:" + sname, stext, 0)
   res.extra["generation_and_director_oracle_wall_s"] = round(time.time() - t_start, 1)
   res.extra["variants"] = len(cases)
   res.extra["queries_compared"] = n_queries
@@ -825,20 +902,40 @@ def run(res):
   res.obligation("hypothesis:edit-adds-events-only",
                  hyp["inserted:violated"] == 0 and hyp["inserted-standalone:violated"] == 0 and
                  hyp["no-base-range-event-added"] == 0, json.dumps(hyp))
+  res.obligation("hypothesis:blanked-comment-is-neutral",
+                 hyp["blank:tokenizer-map-differs"] == 0 and hyp["blank:plain-comment-NOT-event-neutral"] == 0,
+                 json.dumps({k: v for k, v in hyp.items() if k.startswith("blank:")}))
 
   # --- model vs implementation (Coq evaluates the model and compares)
   t0 = time.time()
   files = []
   n_files = 12 if thorough else 4        # each coqc process pays the stdlib loading cost once
   per = min(450, max(1, -(-len(cases) // n_files)))
+  nf = max(1, -(-len(cases) // per))
+  pper = max(1, -(-len(pcases) // nf))
   for k in range(0, len(cases), per):
     chunk = [c.replace(f"Definition case_{k + j} :", f"Definition case_{j} :", 1) for j, c in enumerate(cases[k:k + per])]
-    files.append((f"c03_{k // per}", M.cases_file(chunk)))
+    fi = k // per
+    # the parser-model cases ride in the same files (one library load per coqc process)
+    files.append((f"c03_{fi}", M.cases_file(chunk) + PP.cases_body(pcases[fi * pper:(fi + 1) * pper])))
   results = common.run_cases_parallel(files)
   n_mism = 0
+  n_pmism = 0
   for k, (name, _) in enumerate(files):
     ok, out = results[name]
-    bad = M.parse_bad_cases(out) if ok else None
+    terms = common.parse_coq_eval(out) if ok else []
+    bad = PP.parse_bad_term(terms[0]) if len(terms) == 2 else None
+    pbad = PP.parse_bad_term(terms[1]) if len(terms) == 2 else None
+    if bad is not None and pbad is None:
+      bad = None
+    for idx, secs in sorted((pbad or {}).items()):
+      n_pmism += 1
+      meta = pmeta[k * pper + idx]
+      if n_pmism <= 3:
+        res.obligation("correspondence:parser:" + meta["tag"], False,
+                       "parser model and real parser.py differ in " +
+                       ", ".join(PP.SECTION_NAMES[i] if i < len(PP.SECTION_NAMES) else str(i) for i in secs) +
+                       f"; source:\n{meta['src']}")
     if bad is None:
       res.obligation("correspondence:coq-run:" + name, False, out[-1500:])
       n_mism += 1
@@ -851,6 +948,12 @@ def run(res):
         res.obligation("correspondence:" + meta["tag"] + ":" + meta["kind"], False,
                        f"model and real Director differ on queries {q}; disable={meta['disable']}; source:\n{meta['src']}")
   res.obligation("correspondence:model-vs-Director", n_mism == 0, f"{n_mism} of {len(cases)} variants disagree")
+  res.obligation("correspondence:parser-model-vs-parser.py", n_pmism == 0,
+                 f"{n_pmism} of {len(pcases)} source texts: the model's groups/ranges differ from the real visitor's")
+  res.extra["parser_texts_oracle_checked"] = p_texts
+  res.extra["parser_model_cases"] = len(pcases)
+  res.extra["parser_model_tree_nodes"] = p_nodes
+  res.extra["parser_nonempty_group_shapes"] = dict(p_shapes)
   res.extra["coq_cases_wall_s"] = round(time.time() - t0, 1)
 
   # --- end-to-end metamorphic oracle
@@ -968,6 +1071,20 @@ def replay(res, path):
           "known": set(errors.get_error_names_set())}
   d = json.load(open(path))
   rp = d["replay"]
+  if rp.get("level") == "parser":
+    print("---- program")
+    print(rp["src"])
+    real = PP.real_parse_full(rp["src"])
+    print("---- groups of the real parser:")
+    for ic, s_, e_, cs_ in real.groups:
+      print("  ", "Call" if ic else "LineRange", (s_, e_), [(c.line, c.tool, c.data, c.open_ended) for c in cs_])
+    print("---- function ranges:", dict(real.visitor.function_ranges), "returns:", sorted(real.visitor.block_returns.all_returns()))
+    dv = PP.oracles(real)
+    print("---- deviations from the parser theorems' statements:")
+    for x in dv[:10]:
+      print("  ", x)
+    want = d.get("fingerprint", "").replace("c03:", "")
+    return 1 if any(x[0] == want for x in dv) or (not want and dv) else 0
   src, disable, ed = rp["src"], rp.get("disable", []), rp["edit"]
   ref, new, info = apply_edit(src, ed)
   print("---- program (edit: %s)" % json.dumps(ed))
